@@ -147,6 +147,14 @@ def grammar_items(tier: str) -> list:
                 frames.append(Seq((NT("<x>"), u(Seq((NT("<x>"), first, last))))))
     for f in frames:
         out.append((RefGrammar({"<start>": f, "<x>": Alt((Lit("x"), Lit("y")))}), "frame"))
+    # whole rule bodies that begin and end with a group (no operator, no tail), in <start> and in an inner rule
+    for first in ends:
+        for last in ends2:
+            for mid in ((), (c,), (NT("<x>"),)):
+                body = Seq((first,) + mid + (last,))
+                out.append((RefGrammar({"<start>": body, "<x>": Alt((Lit("x"), Lit("y")))}), "bare_body"))
+                out.append((RefGrammar({"<start>": Seq((NT("<p>"), Lit("!"))), "<p>": body, "<x>": Alt((Lit("x"), Lit("y")))}), "bare_body"))
+            out.append((RefGrammar({"<start>": Alt((Seq((first, c)), last)), "<x>": Alt((Lit("x"), Lit("y")))}), "bare_body"))
     # the same text once as a plain literal and once as a regex (and as str / bytes) in one spec, both orders
     for txt in ("x+", "[ab]", "a.", "\\d"):
         for first_is_regex in (False, True):
